@@ -92,7 +92,9 @@ claim('C12',
       'handler, non-atomic counter) - reported per run. Bound to the code by trace validation of real multi-threaded executions against '
       'ONE Application under a deterministic scheduler whose switch points are sys.settrace line events inside clastic/* and the '
       'sinter-generated code: every single-preemption schedule of ordered scenario pairs (success, 404, 405, non-breaking fall-through, '
-      'uncaught exception, redirect; request-derived provides), seeded random multi-preemption schedules of 3-4 threads, and '
+      'uncaught exception, redirect; request-derived provides, the built-in GetParamMiddleware), the same on FRESH applications (first '
+      'requests ever served), seeded random multi-preemption schedules of 3-4 threads (also over two applications in one process), '
+      'behaviours of Threads.tla generated by TLC and replayed at label granularity (k-th label step = k-th segment of the thread), and '
       'free-running stress (8 threads, 1 us switch interval); each recorded execution is validated by TLC (Threads_Trace).',
       'Trusted: TLC; the scheduler (one worker runs at a time, so the log order is the execution order); interleavings inside C code are '
       'atomic under the GIL; free-threaded builds out of scope.',
@@ -108,7 +110,8 @@ claim('C13',
       'header sets x 3 application variants is driven through the raw WSGI interface with a recording start_response, counting iterator '
       'and tracked open(); TLC validates each recorded interaction against the protocol machine (Wsgi_Trace); the same requests run under '
       'wsgiref.validate. TLC-enumerated application trees are built (constructor and empty constructor + add) and the observed wrapper '
-      'order is judged by TLC (WsgiWrap_Trace); RerouteWSGI is checked for environ identity, intact entries and verbatim relay.',
+      'order is judged by TLC (WsgiWrap_Trace), for sibling embeddings and for nested chains (OrderOKChain); RerouteWSGI (targets of '
+      'several callable shapes, branch routes in rewrite mode) is checked for environ identity, intact entries and verbatim relay.',
       'Trusted: TLC; wsgiref.validate; the recording shims; wrappers of applications embedded after construction and the mutual order '
       'of sibling applications (incl. types they share) are not decided.',
       'TLA+ spec (Wsgi.tla, WsgiWrap.tla) + TLC + trace validation of recorded WSGI interactions (Wsgi_Trace.tla, WsgiWrap_Trace.tla)',
@@ -145,7 +148,8 @@ claim('C15',
 
 claim('C16',
       'Cookie.tla models signed-cookie sessions: clients with a jar entry (server-issued token / garbage / nothing), tokens [data, expiry], '
-      'a clock, requests (set/del/clear/read), tampering and forging (12 kinds), replay of old tokens; Present(jar) = the token\'s data iff it '
+      'a clock, requests (set/del/clear/read/expire = cookie.set_expires in the past), tampering and forging (12 kinds, incl. a cookie issued '
+      'by another deployment with a different / an unconfigured secret), replay of old tokens; Present(jar) = the token\'s data iff it '
       'is server-issued and unexpired, else empty; the server must re-issue when data changed and may re-issue otherwise. TLC checks '
       'OnlySignedData, GarbageIsEmpty, NeverPresentExpired for session / never / numeric expiry. Bound to the code by trace validation: '
       'TLC-generated and seeded random histories are executed against the real SignedCookieMiddleware with an injected clock and a '
@@ -227,7 +231,9 @@ claim('C03',
 claim('C04', _INJ +
       'C04 instance: reserved names admitted as URL bindings, resources and provides, both malformations enabled; every pair of '
       'source kinds (url/resource/builtin/middleware within and across phases and levels) is enumerated exhaustively; replayed '
-      'constructions must raise NameError where the spec pins it and must be rejected wherever any defect is present.',
+      'constructions must raise NameError where the spec pins it and must be rejected wherever any defect is present. Two further legs '
+      'from the same module: ErrAvail (names an error renderer may take: request built-ins, resources in scope, _error - not context / '
+      'next), and Conflict for an embedding prefix that carries a URL binding.',
       'Trusted: TLC; when several defect classes coincide only rejection is required; _ignored excluded from alphabets.',
       'TLA+ spec (Inject.tla, defect-enabled instance) + TLC exhaustive + replay of TLC-generated configurations',
       'DESIGN.md 3/C04')
